@@ -38,6 +38,9 @@ def _addr_of(i):
     return ("10.7.%d.%d" % (i // 200, 1 + i % 200), 40000 + i)
 
 
+PEEK_MISSES = {}     # labelled peeks that could not read the private state (reported in the evidence)
+
+
 class Game:
     """Per-world bookkeeping of the path games (attached to a c05.Lab as lab.pg)."""
 
@@ -51,11 +54,14 @@ class Game:
         self.problems = []
         self.recorder = None
         conn = lab.subject.conn
-        if conn is not None and conn._network_paths:
-            self.exp_active = conn._network_paths[0].addr
-        sp = self._space()
-        if sp is not None:
-            self.max_pn = sp.largest_received_packet
+        try:
+            if conn is not None and conn._network_paths:
+                self.exp_active = conn._network_paths[0].addr
+            sp = self._space()
+            if sp is not None:
+                self.max_pn = sp.largest_received_packet
+        except Exception:  # noqa: BLE001 -- labelled peek
+            PEEK_MISSES["Game.__init__"] = PEEK_MISSES.get("Game.__init__", 0) + 1
 
     def _space(self):
         conn = self.lab.subject.conn
@@ -186,21 +192,36 @@ class Game:
 
     def _closing(self):
         conn = self.lab.subject.conn
-        return conn is None or conn._close_pending or conn._state.name in ("CLOSING", "DRAINING", "TERMINATED")
+        try:
+            return conn is None or conn._close_pending or conn._state.name in ("CLOSING", "DRAINING", "TERMINATED")
+        except Exception:  # noqa: BLE001 -- labelled peek
+            PEEK_MISSES["_closing"] = PEEK_MISSES.get("_closing", 0) + 1
+            return True
 
     def _n_received(self):
         conn = self.lab.subject.conn
         lg = getattr(conn, "_quic_logger", None)
         if lg is None:
             return 0
-        return sum(1 for e in lg._events if e.get("name") == "transport:packet_received")
+        try:
+            return sum(1 for e in lg._events if e.get("name") == "transport:packet_received")
+        except Exception:  # noqa: BLE001 -- labelled peek
+            PEEK_MISSES["_n_received"] = PEEK_MISSES.get("_n_received", 0) + 1
+            return 0
 
     # -- the table oracle (labelled peek; trusted harness code)
     def check_table(self, where):
         conn = self.lab.subject.conn
         if conn is None or self.lab.subject.raised:
             return
-        paths = list(conn._network_paths)
+        try:
+            paths = list(conn._network_paths)
+            [p.addr for p in paths]
+        except Exception as e:  # noqa: BLE001 -- labelled peek: an unreadable table is a table problem, not an abort
+            PEEK_MISSES["check_table"] = PEEK_MISSES.get("check_table", 0) + 1
+            if not any(b[0] == "unreadable" for b in self.problems):
+                self.problems.append(("unreadable", "network-path table %s: _network_paths cannot be read (%r)" % (where, e)))
+            return
         mx = max_paths()
         bad = None
         if len(paths) > mx:
@@ -410,9 +431,19 @@ class Recorder:
         return self.addr_ix[addr]
 
     def table(self):
+        """labelled peek at _network_paths; an unreadable table / entry becomes the distinguished entry [-1, -1, -1, -1]"""
         out = []
-        for p in self.conn._network_paths:
-            out.append([self.aix(p.addr), int(bool(p.is_validated)), int(bool(p.local_challenge_sent)), len(p.remote_challenges)])
+        try:
+            paths = list(self.conn._network_paths)
+        except Exception:  # noqa: BLE001
+            PEEK_MISSES["table"] = PEEK_MISSES.get("table", 0) + 1
+            return [[-1, -1, -1, -1]]
+        for p in paths:
+            try:
+                out.append([self.aix(p.addr), int(bool(p.is_validated)), int(bool(p.local_challenge_sent)), len(p.remote_challenges)])
+            except Exception:  # noqa: BLE001
+                PEEK_MISSES["table"] = PEEK_MISSES.get("table", 0) + 1
+                out.append([-1, -1, -1, -1])
         return out
 
     def _emit(self, op, raised=None):
@@ -437,7 +468,12 @@ class Recorder:
         return r
 
     def receive_datagram(self, data, addr, *a, **kw):
-        self.cur = {"addr": self.aix(addr), "pkts": [], "start_len": len(self.conn._network_paths)}
+        try:
+            start_len = len(self.conn._network_paths)
+        except Exception:  # noqa: BLE001 -- labelled peek, inside the implementation's call path
+            PEEK_MISSES["start_len"] = PEEK_MISSES.get("start_len", 0) + 1
+            start_len = -1
+        self.cur = {"addr": self.aix(addr), "pkts": [], "start_len": start_len}
         try:
             r = self.orig["receive_datagram"](data, addr, *a, **kw)
         except Exception as e:
@@ -461,30 +497,42 @@ class Recorder:
         conn = self.conn
         if self.cur is None:           # not inside receive_datagram (cannot happen through the public API)
             return self.orig["_payload_received"](context, plain, *a, **kw)
-        tab = list(conn._network_paths)
-        np = context.network_path
-        in_tab = any(np is p for p in tab)
-        pre_val = {id(p): bool(p.is_validated) for p in tab + [np]}
-        pre_rc = len(np.remote_challenges)
-        pn = None
-        lg = conn._quic_logger
-        if lg is not None:
-            for ev in reversed(lg._events):
-                if ev["name"] == "transport:packet_received":
-                    pn = ev["data"]["header"]["packet_number"]
-                    break
-        space = conn._spaces[context.epoch]
-        newer = pn is not None and pn > space.largest_received_packet
-        reset = int(self.cur["start_len"] == 0 and not self.cur["pkts"] and len(tab) == 1 and tab[0] is np)
-        n0 = self.count["path_challenge"]
-        k = {"reset": reset, "reached": 0, "hs": int(context.epoch == tls.Epoch.HANDSHAKE), "probing": 0, "newer": int(newer),
-             "resp": [], "nchal": 0}
+        # This wrapper runs INSIDE the implementation's receive_datagram(): its own peeks at private state must never raise
+        # (an exception here would look like one escaping the implementation).  If the state cannot be read the packet is
+        # recorded with the distinguished verdict reset = -1 and the call goes through untouched.
+        try:
+            tab = list(conn._network_paths)
+            np = context.network_path
+            in_tab = any(np is p for p in tab)
+            pre_val = {id(p): bool(p.is_validated) for p in tab + [np]}
+            pre_rc = len(np.remote_challenges)
+            pn = None
+            lg = conn._quic_logger
+            if lg is not None:
+                for ev in reversed(lg._events):
+                    if ev["name"] == "transport:packet_received":
+                        pn = ev["data"]["header"]["packet_number"]
+                        break
+            space = conn._spaces[context.epoch]
+            newer = pn is not None and pn > space.largest_received_packet
+            reset = int(self.cur["start_len"] == 0 and not self.cur["pkts"] and len(tab) == 1 and tab[0] is np)
+            n0 = self.count["path_challenge"]
+            k = {"reset": reset, "reached": 0, "hs": int(context.epoch == tls.Epoch.HANDSHAKE), "probing": 0, "newer": int(newer),
+                 "resp": [], "nchal": 0}
+        except Exception as e:  # noqa: BLE001 -- harness peek failed
+            PEEK_MISSES["payload_received:%s" % type(e).__name__] = PEEK_MISSES.get("payload_received:%s" % type(e).__name__, 0) + 1
+            self.cur["pkts"].append({"reset": -1, "reached": 0, "hs": 0, "probing": 0, "newer": 0, "resp": [], "nchal": 0})
+            self.npk += 1
+            return self.orig["_payload_received"](context, plain, *a, **kw)
 
         def effects():
-            k["resp"] = [i for i, p in enumerate(tab) if p.is_validated and not pre_val[id(p)]]
-            if not in_tab and np.is_validated and not pre_val[id(np)]:
-                k["resp"].append(-1)
-            k["nchal"] = (self.count["path_challenge"] - n0) if lg is not None else (len(np.remote_challenges) - pre_rc)
+            try:
+                k["resp"] = [i for i, p in enumerate(tab) if p.is_validated and not pre_val[id(p)]]
+                if not in_tab and np.is_validated and not pre_val[id(np)]:
+                    k["resp"].append(-1)
+                k["nchal"] = (self.count["path_challenge"] - n0) if lg is not None else (len(np.remote_challenges) - pre_rc)
+            except Exception as e:  # noqa: BLE001
+                PEEK_MISSES["effects:%s" % type(e).__name__] = PEEK_MISSES.get("effects:%s" % type(e).__name__, 0) + 1
             self.cur["pkts"].append(k)
             self.npk += 1
         try:
@@ -492,8 +540,11 @@ class Recorder:
         except BaseException:
             effects()
             raise
-        k["probing"] = int(bool(res[1]))
-        k["reached"] = int(not (conn._state in END_STATES or conn._close_pending))
+        try:
+            k["probing"] = int(bool(res[1]))
+            k["reached"] = int(not (conn._state in END_STATES or conn._close_pending))
+        except Exception as e:  # noqa: BLE001
+            PEEK_MISSES["verdict:%s" % type(e).__name__] = PEEK_MISSES.get("verdict:%s" % type(e).__name__, 0) + 1
         effects()
         return res
 
